@@ -39,7 +39,7 @@ def parse(line):
     for tok in line.split(" "):
         k, _, v = tok.partition("=")
         d[k] = v
-    for k in ("T", "f", "p", "ic", "g", "c", "d", "ja", "js", "grow", "skew", "al", "alm", "budget"):
+    for k in ("T", "f", "p", "g", "c", "d", "ja", "js", "grow", "skew", "al", "alm", "budget"):
         d[k] = int(d[k])
     return d
 
@@ -188,6 +188,20 @@ def rand_costs(rng, thousand=False):
                 d=rng.choice([0, 1, 3, 40, rng.randrange(0, 600)]))
 
 
+def rand_ic(rng):
+    """Which counter kinds (bytes, chars, cycles, items) get an input-based counter."""
+    k = rng.random()
+    if k < 0.35:
+        return "0000"
+    if k < 0.5:
+        return "0001"
+    if k < 0.6:
+        return rng.choice(["1000", "0100", "0010"])
+    if k < 0.9:
+        return rng.choice(["1001", "0101", "0011", "1100", "0110", "1010"])
+    return rng.choice(["1111", "0111", "1011", "1101", "1110"])
+
+
 def rand_offsets(rng, T):
     k = rng.random()
     if k < 0.4:
@@ -230,7 +244,7 @@ def rand_case(rng, tuned=None, test=None, timed=True):
         c["oh"] = f"{rng.randrange(0, c_ps + 2)},0,0,0"
     else:
         c["oh"] = f"{rng.choice([c_ps, c_ps * 3, 1 << 100, (1 << 128) - 1])},{rng.randrange(0, 9)},{rng.randrange(0, 9)},{rng.randrange(0, 9)}"
-    c["ic"] = rng.choice([0, 0, 1])
+    c["ic"] = rand_ic(rng)
     if rng.random() < 0.4:
         c["ja"] = rng.choice([1, 5, rng.randrange(1, 2 * c["c"] + 2)])
         c["js"] = rng.randrange(0, 1 << 30)
@@ -312,7 +326,7 @@ def aim_threshold(rng):
         return None
     case = dict(mode="b", n=rng.choice(["-", 1, 2, 5, rng.randrange(1, 12)]), s="-", T=T, f=PS, p=p,
                 g=rng.randrange(0, 50), c=c, d=rng.randrange(0, 50), x=f"{j}:{rng.randrange(0, T)}:{e}",
-                off=rand_offsets(rng, T), ic=rng.choice([0, 1]),
+                off=rand_offsets(rng, T), ic=rand_ic(rng),
                 oh=rng.choice(["0,0,0,0", f"{rng.randrange(0, c + 1)},0,0,0"]))
     if rng.random() < 0.3:
         case["skip"] = "1"
@@ -339,7 +353,8 @@ def histogram(cases):
         bump("skip=" + d["skip"])
         bump("min=" + ("unset" if d["min"] == "-" else "set"))
         bump("max=" + ("unset" if d["max"] == "-" else "set"))
-        bump("counter=" + str(d["ic"]))
+        nk = sum(1 for ch in str(d["ic"]) if ch == "1") if len(str(d["ic"])) == 4 else int(d["ic"])
+        bump("input_counter_kinds=%d" % nk)
         bump("allocs=" + ("none" if d["al"] == 0 else ("all" if d["alm"] == 0 else "some threads/rounds")))
     return h
 
@@ -367,6 +382,8 @@ def shrink_item(item, rerun_case):
     """Greedy: drop script features and lower n / T / s while the specification
     still fails on the implementation's output."""
     mode = item["mode"]
+    if mode == "c03e2e":
+        return shrink_e2e(item, rerun_case)
 
     def fails(case_line):
         impl, model, sb = rerun_case(mode, case_line, crate="hx-loop", release=False, model_input=model_input, drv="loop")
@@ -378,7 +395,7 @@ def shrink_item(item, rerun_case):
     for _ in range(3):
         changed = False
         cands = []
-        for k, v in (("ja", 0), ("grow", 0), ("skew", 0), ("ic", 0), ("al", 0), ("alm", 0), ("oh", "0,0,0,0"), ("g", 0), ("d", 0)):
+        for k, v in (("ja", 0), ("grow", 0), ("skew", 0), ("ic", "0000"), ("al", 0), ("alm", 0), ("oh", "0,0,0,0"), ("g", 0), ("d", 0)):
             if str(cur[k]) != str(v):
                 cands.append({k: v})
         if cur["off"].replace("0", "").replace(",", "") != "":
@@ -406,4 +423,105 @@ def shrink_item(item, rerun_case):
         return item
     out = dict(item)
     out.update({"case": cur_line, "impl": best[0], "model": best[1], "spec_verdict": best[2], "shrunk_from": item["case"]})
+    return out
+
+
+# ---------------------------------------------------------------------------
+# C03 end to end: the real runner (harness/hx-loop/src/e2e.rs) as a subprocess
+# ---------------------------------------------------------------------------
+import re
+import subprocess
+
+E2E_CRATE = "hx_loop_e2e"
+# tag -> (path below the crate, n, s, threads) as set by the attributes
+E2E_ATTR = {
+    "a_5_3_t123": ("a_5_3_t123", 5, 3, [1, 2, 3]),
+    "a_7_2_t24": ("a_7_2_t24", 7, 2, [2, 4]),
+    "a_1_4_t13": ("a_1_4_t13", 1, 4, [1, 3]),
+    "g_4_2_t12": ("grp::g_4_2_t12", 4, 2, [1, 2]),
+    "g_3_2_t234": ("grp::g_3_2_t234", 3, 2, [2, 3, 4]),
+}
+E2E_PLAIN = {"plain": "plain", "plain_inputs": "plain_inputs"}
+
+
+def e2e_case(bench, via, mode, n, s, threads):
+    return f"bench={bench} via={via} mode={mode} n={n} s={s} threads={','.join(str(t) for t in sorted(set(threads)))}"
+
+
+def e2e_cases(rng, count):
+    cases = []
+    for tag, (_, n, s, th) in E2E_ATTR.items():
+        cases.append(e2e_case(tag, "attr", "b", n, s, th))
+        cases.append(e2e_case(tag, "attr", "t", n, s, th))
+        cases.append(e2e_case(tag, "attr+cli-n", "b", rng.choice([1, 2, 6, 9]), s, th))
+    for th in ([1, 2, 3], [1], [3], [2, 4], [1, 4], [1, 2, 3, 4]):
+        cases.append(e2e_case("plain", "cli", "b", 5, 3, th))
+    cases.append(e2e_case("plain", "cli", "b", "-", 1, [1, 3]))      # default count 100
+    cases.append(e2e_case("plain_inputs", "env", "b", "-", 2, [2, 3]))
+    while len(cases) < count:
+        k = rng.randrange(1, 5)
+        th = sorted(rng.sample([1, 2, 3, 4], k))
+        n = rng.choice([1, 1, 2, 3, 4, 5, 6, 7, 8, 11, 13])
+        s = rng.choice([1, 1, 2, 3, 4, 5])
+        cases.append(e2e_case(rng.choice(list(E2E_PLAIN)), rng.choice(["cli", "cli", "env"]),
+                              "t" if rng.random() < 0.1 else "b", n, s, th))
+    seen, out = set(), []
+    for c in cases:
+        if c not in seen:
+            seen.add(c)
+            out.append(c)
+    return out
+
+
+def e2e_stream(name, cases):
+    """The harness's `c03e2e` mode runs the real benchmark binary hx-loop-e2e as a subprocess (60 s watchdog)."""
+    def nt(case, model_line):
+        return "starved" not in model_line and "panic" not in model_line and "," in case.split("threads=")[1]
+
+    h = {}
+    for c in cases:
+        d = dict(tok.split("=", 1) for tok in c.split(" "))
+        for k in ("via=" + d["via"], "mode=" + d["mode"], "thread_counts=%d" % len(d["threads"].split(","))):
+            h[k] = h.get(k, 0) + 1
+    return Stream(name, "c03e2e", cases, nontrivial=nt, crate="hx-loop", drv="loop", hist=h, impl_timeout=600,
+                  describe="real Divan runner: samples/iters cells of every t=N row and per-thread call counts vs the model's C03 figures")
+
+
+def shrink_e2e(item, rerun_case):
+    """Fewer thread counts, smaller n and s, while the specification still fails."""
+    def fails(line):
+        impl, model, sb = rerun_case("c03e2e", line, crate="hx-loop", release=False, model_input=None, drv="loop")
+        return (not sb.startswith("true")), impl, model, sb
+
+    d = dict(tok.split("=", 1) for tok in item["case"].split(" "))
+    if d["via"] not in ("cli", "env"):
+        return item
+    best = None
+    for _ in range(4):
+        changed = False
+        th = d["threads"].split(",")
+        cands = []
+        if len(th) > 2:
+            cands += [{"threads": ",".join(th[:i] + th[i + 1:])} for i in range(len(th))]
+        if d["n"] != "-" and int(d["n"]) > 1:
+            cands.append({"n": str(int(d["n"]) - 1)})
+        if int(d["s"]) > 1:
+            cands.append({"s": "1"})
+        for ch in cands:
+            t = dict(d)
+            t.update(ch)
+            line = " ".join(f"{k}={t[k]}" for k in ("bench", "via", "mode", "n", "s", "threads"))
+            try:
+                bad, impl, model, sb = fails(line)
+            except Exception:
+                continue
+            if bad and not impl.startswith(("crash", "watchdog")):
+                d, best, changed = t, (line, impl, model, sb), True
+                break
+        if not changed:
+            break
+    if best is None:
+        return item
+    out = dict(item)
+    out.update({"case": best[0], "impl": best[1], "model": best[2], "spec_verdict": best[3], "shrunk_from": item["case"]})
     return out
